@@ -107,10 +107,28 @@ def run(ctx):
     ctx.bounds['outside'] += '; task cancellation at an arbitrary await (coroutine drop shims) is covered only through the guard check (Drop with notify_on_cancel), not per suspension state; monitors feature'
     ctx.assumptions += lp.COMMON_ASSUMPTIONS
     guard_check(ctx, prog)
+    # the reported event is not filtered on its way into the supervisor's port, whatever the supervisor is doing
+    import C04_deliver
+    import C04_deliver_replay
+    C04_deliver.check(ctx, prog)
+    try:
+        r = C04_deliver_replay.run_native()
+        ctx.translator_validated += 1
+        ctx.extra['deliver_native'] = r
+        if r['violated']:
+            rec = {'name': 'deliver.native_battery', 'group': 'C04.deliver', 'solver_s': 0.0, 'status': 'cex'}
+            ctx.obligations.append(rec)
+            ctx.handle_cex(rec['name'], 'C04.deliver.native', None, lambda _m: {'replayed': True, 'detail': 'real draining supervisor with two exiting children: %s' % r, 'replay': {'which': 'deliver'}}, rec)
+    except RuntimeError as e:
+        ctx.inconclusive.append('delivery native scenario unavailable: %s' % str(e)[-300:])
     ctx.parallel(job, insts)
 
 
 def replay_file(path):
     import json
     import life_replay
-    return life_replay.replay_from_json(json.load(open(path)))
+    d = json.load(open(path))
+    if (d.get('replay') or {}).get('which') == 'deliver':
+        import C04_deliver_replay
+        return C04_deliver_replay.replay_from_json(d)
+    return life_replay.replay_from_json(d)
